@@ -1,3 +1,4 @@
+import re
 from typing import Callable, Dict
 from uuid import UUID
 import warnings
@@ -65,8 +66,47 @@ def _is_uuid(value: str) -> bool:
     return True
 
 
+_RFC3339_DATE_TIME = re.compile(
+    r"([0-9]{4})-([0-9]{2})-([0-9]{2})[Tt]"
+    r"([0-9]{2}):([0-9]{2}):([0-9]{2})(?:\.[0-9]+)?"
+    r"(?:[Zz]|[+-]([0-9]{2}):([0-9]{2}))"
+)
+
+
+def _is_rfc3339_date_time(value: str) -> bool:
+    """Check a string against the RFC 3339 ``date-time`` production.
+
+    ``dateutil`` can represent neither leap seconds nor the year 0000,
+    both of which are valid in RFC 3339 timestamps.
+    """
+    match = _RFC3339_DATE_TIME.fullmatch(value)
+    if not match:
+        return False
+    year, month, day, hour, minute, second = (
+        int(group) for group in match.groups()[:6]
+    )
+    offset_hour, offset_minute = (
+        int(group or 0) for group in match.groups()[6:]
+    )
+    if not 1 <= month <= 12:
+        return False
+    leap_year = year % 4 == 0 and (year % 100 != 0 or year % 400 == 0)
+    february = 29 if leap_year else 28
+    month_days = (31, february, 31, 30, 31, 30, 31, 31, 30, 31, 30, 31)
+    return (
+        1 <= day <= month_days[month - 1]
+        and hour <= 23
+        and minute <= 59
+        and second <= 60
+        and offset_hour <= 23
+        and offset_minute <= 59
+    )
+
+
 @format_checker.register("date-time")
 def _is_date_time(value: str) -> bool:
+    if isinstance(value, str) and _is_rfc3339_date_time(value):
+        return True
     try:
         parse_datetime(value)
     except (ParserError, TypeError):
